@@ -868,7 +868,7 @@ def main():
         args_ = " ".join(d["generics"] + d["extras"])
         tac = "tie_%s" % d["name"] if re.search(r"Ltac tie_%s\b" % d["name"], tactics_src) else "tie"
         model = d.get("model") or MODEL_NAME.get(d["name"], d["name"])
-        tie.append("Lemma tie_%s : forall %s, src_%s %s i = run %s i.\nProof. intros; unfold src_%s, %s; %s. Qed.\n" % (
+        tie.append("Lemma tie_%s : forall %s, src_%s %s i = run %s i.\nProof. intros; unfold src_%s, %s; timeout 60 %s. Qed.\n" % (
             d["name"], binders, d["name"], args_, ("(%s %s)" % (model, args_)) if args_ else model, d["name"], model, tac))
     os.makedirs(out, exist_ok=True)
     # diagnostic variant: every statement tried on its own, failures printed instead of stopping the file
